@@ -10,6 +10,7 @@ package c09
 //                             (regenerate: cd /verif/harness && go run ./c09/gen)
 
 import (
+	"sync"
 	"fmt"
 	"math"
 	"testing"
@@ -195,6 +196,67 @@ func runLaws[T any](t *testing.T, in inst[T]) {
 		rec.Guard(rt, pfx+"hash-det", func() { h1, h3, h2 = in.hash(a), in.hash(cp), in.hash(a) })
 		if h1 != h2 || h1 != h3 {
 			rec.Failf(rt, pfx+"hash-det", "Hash(a) = %d, again = %d, Hash(copy of a) = %d for a = %s", h1, h2, h3, sa)
+		}
+	})
+
+	// An instance is a value shared by everything that uses it (the immutable map hashes from whatever
+	// goroutine reads it): Hash must be the same function when several goroutines call it at once.
+	// Real goroutines, so a miss proves nothing; a mismatch is a violation (the expected hashes are computed
+	// sequentially beforehand from the same instance).
+	kit.Check(t, in.name+"/hash-concurrent", "3..6 values; their hashes computed sequentially, then G in 2..8 goroutines released together hash the same values 300 times each in rotating order; every result must equal the sequential one; non-trivial iff G >= 4 and some value is not the zero value; distinct by (G, printed values)", kit.Opt{Weight: 0.15}, func(rt *rapid.T, rec *kit.Rec) {
+		n := rapid.IntRange(3, 6).Draw(rt, "n")
+		G := rapid.IntRange(2, 8).Draw(rt, "G")
+		vals := make([]T, n)
+		shown := make([]string, n)
+		nonZero := false
+		for i := range vals {
+			vals[i] = d.gen(rt)
+			shown[i] = d.show(vals[i])
+			nonZero = nonZero || shown[i] != zs
+		}
+		rec.Case(G >= 4 && nonZero, fmt.Sprintf("G=%d %v", G, shown))
+		want := make([]uint32, n)
+		rec.Guard(rt, pfx+"hash-concurrent", func() {
+			for i := range vals {
+				want[i] = in.hash(vals[i])
+			}
+		})
+		type miss struct {
+			g, i int
+			got  uint32
+			pv   any
+		}
+		misses := make([]*miss, G)
+		start := make(chan struct{})
+		var wg sync.WaitGroup
+		for g := 0; g < G; g++ {
+			wg.Add(1)
+			go func(g int) {
+				defer wg.Done()
+				defer func() {
+					if r := recover(); r != nil && misses[g] == nil {
+						misses[g] = &miss{g: g, i: -1, pv: r}
+					}
+				}()
+				<-start
+				for k := 0; k < 300; k++ {
+					i := (g + k) % n
+					if h := in.hash(vals[i]); h != want[i] && misses[g] == nil {
+						misses[g] = &miss{g: g, i: i, got: h}
+					}
+				}
+			}(g)
+		}
+		close(start)
+		wg.Wait()
+		for _, m := range misses {
+			if m == nil {
+				continue
+			}
+			if m.i < 0 {
+				rec.Failf(rt, pfx+"hash-concurrent", "goroutine %d of %d panicked while hashing concurrently: %v", m.g, G, m.pv)
+			}
+			rec.Failf(rt, pfx+"hash-concurrent", "goroutine %d of %d got Hash(%s) = %d while other goroutines were hashing; sequentially it is %d", m.g, G, shown[m.i], m.got, want[m.i])
 		}
 	})
 }
